@@ -143,8 +143,38 @@ def run(ids):
     return 0
 
 
+def index():
+    base = os.path.join(VERIF, "seeded")
+    rows = []
+    for sid in sorted(x for x in os.listdir(base) if os.path.isdir(os.path.join(base, x))):
+        m = json.load(open(os.path.join(base, sid, "meta.json")))
+        own = m["breaks_property"]
+        det = m.get("detected_by") or {}
+        own_rules = sorted({l.split()[0] for l in det.get(own, []) if not l.startswith("ANALYSIS")})
+        others = sorted(k for k, v in det.items() if k != own and v and not v[0].startswith("ANALYSIS"))
+        notes = ""
+        np_ = os.path.join(base, sid, "notes.md")
+        if os.path.exists(np_):
+            for line in open(np_):
+                line = line.strip().lstrip("#").strip()
+                if line:
+                    notes = line
+                    break
+        rows.append((sid, own, notes[:140].replace("|", "/"), ",".join(own_rules) or "**missed**", ",".join(others)))
+    with open(os.path.join(base, "INDEX.md"), "w") as fh:
+        fh.write("# Seeded changes (independent sub-agents; each confirmed: suite still green, demo fails with / passes without)\n\n")
+        fh.write("| id | breaks | change (first line of the author's notes) | own check: rules firing | other checks firing |\n|---|---|---|---|---|\n")
+        for r in rows:
+            fh.write("| " + " | ".join(r) + " |\n")
+        missed = [r[0] for r in rows if r[3] == "**missed**"]
+        fh.write(f"\n{len(rows)} changes; {len(rows) - len(missed)} reported by the property's own quick check; missed: {', '.join(missed) or '-'}.\n")
+    print(len(rows), "rows")
+
+
 if __name__ == "__main__":
     if sys.argv[1] == "confirm":
         sys.exit(confirm(sys.argv[2], sys.argv[3], sys.argv[4]))
     elif sys.argv[1] == "run":
         sys.exit(run(sys.argv[2:]))
+    elif sys.argv[1] == "index":
+        index()
